@@ -414,7 +414,7 @@ def analyse(ck):
                     ok = (ua == [("idx", lhs, i), ("idx", rhs, i)] and lc.is_var(i, 0, 8) and len(eq) == 1 and len(rc) == 1
                           and {P.norm(z) for z in P.cb_args(eq[0], "cb.is_equal")} == {("idx", lhs, i), ("idx", rhs, i)})
                     desc = ok and lc.reversed_loop(hnest, i) is True
-    ob.add({"C31"}, ok and desc, "TERM", "gadget/sort/halves8_lt",
+    ob.add({"C31", "C09"}, ok and desc, "TERM", "gadget/sort/halves8_lt",
            "halves8_lt: lt = {false, or(u32_lt(l_i, r_i), and(l_i == r_i, lt))} folded from the least significant half (i over (0..8).rev()): lexicographic with half 0 most significant", loc, T.show(rt, maxdepth=6)[:500])
 
     fr, b = gframe(ck, "sort_digests4", ev)
@@ -465,7 +465,7 @@ def analyse(ck):
                         # both writes happen on every iteration of the limb loop (no guard besides the loop itself)
                         wc = T.upd_write_ctrl(ev, h)
                         ok_in = ok_in and len(wc) == 2 and all(c and all(g[0] == "loop" and tuple(g[2]) == ("1",) for g in c) for c in wc)
-    ob.add({"C31", "C10"}, ok_in, "TERM", "gadget/sort/ingress",
+    ob.add({"C31", "C10", "C09"}, ok_in, "TERM", "gadget/sort/ingress",
            "ingress: every limb j in 0..4 of every digest goes through split_canonical_u32_halves; halves[2j] = hi, halves[2j+1] = lo (most significant half first)", ing.loc if ing else loc, det)
     # compare-and-swap stores
     stores = [e for e in effs if e.name == "<store>"]
@@ -521,10 +521,10 @@ def analyse(ck):
                         i1 = [x for x in im if isinstance(x, tuple) and x[0] == "bin"]
                         ok_cas = bool(i0) and all(x == ("bin", "Add", i0[0], ("c", 1, None)) for x in i1) and bool(i1)
                         ok_cas = ok_cas and L == P.norm(fr.index(Vt, i0[0])) and R == P.norm(fr.index(Vt, ("bin", "Add", i0[0], ("c", 1, None))))
-    ob.add({"C31", "C10"}, ok_cas, "TERM", "gadget/sort/compare-and-swap",
+    ob.add({"C31", "C10", "C09"}, ok_cas, "TERM", "gadget/sort/compare-and-swap",
            "v[i][j] = select(f, v[i][j], v[i+1][j]) and v[i+1][j] = select(f, v[i+1][j], v[i][j]) for all 8 halves with ONE flag f = halves8_lt(v[i], v[i+1]): the output is a permutation by construction", stores[0].loc if stores else loc, det)
     other_mut = [e for e in effs if e.args and P.norm(e.args[0]) == Vt and e.raw.get("name") in T.MUTATORS and e.raw.get("name") not in ("index_mut",) and not (e.path or "").startswith("core::iter")]
-    ob.add({"C31"}, not other_mut and len(stores) == 2, "WMW", "gadget/sort/only-cas-writes", "the halves vector is written only by the two compare-and-swap stores", loc, [e.name for e in other_mut])
+    ob.add({"C31", "C09"}, not other_mut and len(stores) == 2, "WMW", "gadget/sort/only-cas-writes", "the halves vector is written only by the two compare-and-swap stores", loc, [e.name for e in other_mut])
     # network shape
     net_ok = False
     if stores:
@@ -556,7 +556,7 @@ def analyse(ck):
                 r1 = circ.range_expr(sb[1])
                 rnd = ("elem", loops[0])
                 net_ok = bool(r1) and P.norm(r1[0]) == ("bin", "Rem", rnd, ("c", 2, None)) and P.norm(r1[1]) == ("bin", "Sub", nlen, ("c", 1, None))
-    ob.add({"C31"}, net_ok, "TERM", "gadget/sort/network", "odd-even transposition network: rounds 0..n, i from round % 2 in steps of 2 while i + 1 < n (n rounds sort n elements)", stores[0].loc if stores else loc,
+    ob.add({"C31", "C09"}, net_ok, "TERM", "gadget/sort/network", "odd-even transposition network: rounds 0..n, i from round % 2 in steps of 2 while i + 1 < n (n rounds sort n elements)", stores[0].loc if stores else loc,
            [circ.describe_ctrl(c) for c in (stores[0].ctrl if stores else [])])
     # egress
     eg = [e for e in effs if e.name == "cb.mul_const_add"]
@@ -575,7 +575,7 @@ def analyse(ck):
         # once per digest (the outer map(..).collect(), seen as a loop over the swapped vector) and once per limb (array::from_fn)
         ctrlk = ["loop" if c[0] == "loop" else c[1] for c in eg[0].ctrl if c[0] in ("closure", "loop")]
         ok_eg = ok_eg and ctrlk in (["map", "from_fn"], ["loop", "from_fn"])
-    ob.add({"C31"}, ok_eg, "TERM", "gadget/sort/egress", "egress: limb j = halves[2j] * 2^32 + halves[2j+1] for every digest of the (swapped) vector", eg[0].loc if eg else loc, [T.show(z, maxdepth=4)[:200] for e in eg for z in e.args[1:]])
+    ob.add({"C31", "C09"}, ok_eg, "TERM", "gadget/sort/egress", "egress: limb j = halves[2j] * 2^32 + halves[2j+1] for every digest of the (swapped) vector", eg[0].loc if eg else loc, [T.show(z, maxdepth=4)[:200] for e in eg for z in e.args[1:]])
     return ob
 
 
